@@ -18,6 +18,7 @@ func init() {
 	vRegister("vC35_across", vC35_across)
 	vRegister("vC35_across_e2e", vC35_across_e2e)
 	vRegister("vC35_bypass", vC35_bypass)
+	vRegister("vC35_sendsync", vC35_sendsync)
 }
 
 // ---------------------------------------------------------------------------------------------
@@ -455,6 +456,61 @@ func vC35_bypass() {
 			vAssert(vC35_lastResolve == 1 && vC35_inCluster && errors.Is(err, gerrors.ErrRelocationInProgress) && vC35_retryable(err), "a target pinned to a departed endpoint fails fast with ErrRelocationInProgress (retryable)")
 			vCover("pinned-failfast")
 		}
+	}
+	vCover("end")
+}
+
+// ---------------------------------------------------------------------------------------------
+// the call site: the real (*PID).SendSync, with (*PID).Ask substituted by the delivery model (it records the context
+// and timeout it is given) and (*PID).DiscoverActor by a failing stub. The deadline computed by deliverAcrossHandoff
+// must actually reach the Ask.
+// ---------------------------------------------------------------------------------------------
+var (
+	vC35_askTimeout time.Duration
+	vC35_askMsg     any
+	vC35_discovers  int
+)
+
+// substituted for (*PID).Ask
+func vC35_ask(pid *PID, ctx context.Context, to *PID, message any, timeout time.Duration) (any, error) {
+	vC35_askTimeout, vC35_askMsg = timeout, message
+	return vC35_deliver(ctx, to)
+}
+
+// substituted for (*PID).DiscoverActor
+func vC35_discover(pid *PID, ctx context.Context, actorName string, timeout time.Duration) (*PID, error) {
+	vC35_discovers++
+	return nil, gerrors.ErrActorNotFound
+}
+
+func vC35_sendsync() {
+	pid := vC35_setup()
+	pid.setState(runningState, true)
+	timeout := time.Duration(vNondetInt64("timeout"))
+	vAssume(timeout >= -(1<<62) && timeout <= 1<<61)
+	vC35_ownTimeout, vC35_maxWait = int64(timeout), int64(timeout)
+	vC35_discovers = 0
+	msg := &vC35Marker{}
+	got, err := pid.SendSync(vC35_ctx, "target", msg, timeout)
+	vAssert(vC35_delivers <= 1, "the message is asked at most once")
+	if vC35_delivers == 1 {
+		vAssert(vC35_askTimeout == timeout && vC35_askMsg == any(msg), "the Ask gets the caller's message and timeout")
+		if timeout > 0 && vC35_inCluster {
+			vAssert(vC35_deliverDL == vC35_codeStart+int64(timeout), "inside a cluster the Ask runs under the deadline-bounded context (deadline = start + timeout), not the caller's outer context")
+			vCover("bounded-ask")
+		}
+		if timeout > 0 {
+			vAssert(vC35_nom <= int64(timeout) || vC35_timers > 0, "an immediate Ask stays within the caller's timeout")
+		}
+		if vC35_deliverErr == nil {
+			m, ok := got.(*vC35Marker)
+			vAssert(err == nil && ok && m == vC35_resp, "the response is returned as is")
+		}
+		if vC35_timers > 0 {
+			vCover("asked-after-masking")
+		}
+	} else {
+		vAssert(err != nil && got == nil, "no Ask => an error is returned")
 	}
 	vCover("end")
 }
